@@ -2,7 +2,8 @@
    reduces in), numbers the action invocations and
    - ORACLE: evaluates every reference from what it *denotes* (the occurrences of the original rule the
      generator attached to it): the first / last denoted occurrence that is present in this derivation,
-     nil / -1 when none is -- no positions, no name tables, no stack slots;
+     nil / -1 when none is -- no positions, no name tables, no stack slots; ${first()} / ${last()} are the
+     first symbol present / the last symbol present before the action;
    - MODEL: feeds the same children to the extracted ActionRefs.run_node (convert -> pick -> traverse ->
      resolve -> slot arithmetic).
    Both logs are printed the way the generated parser's driver prints its log. *)
@@ -55,6 +56,8 @@ let run_case inp =
             let mref = (match kind with
               | 0 -> AR.RNum (nat_of_int (get_int n))
               | 1 -> AR.RName (get_n nm, (let s = get_int sfx in if s < 0 then None else Some (n_of_int s)))
+              | 3 -> AR.RFirst
+              | 4 -> AR.RLast
               | _ -> AR.RLeft) in
             let mprop = (match prop with 0 -> AR.PValue | 1 -> AR.POffset | _ -> AR.PEndoffset) in
             ({ kind; prop; denotes = get_list get_int den }, (mref, mprop))
@@ -122,6 +125,16 @@ let run_case inp =
       let args = SL.map (fun (r, _) ->
         if r.kind = 2 then
           (match r.prop with 0 -> "nil" | 1 -> string_of_int (if is_final then node_off else !cur) | _ -> string_of_int !cur)
+        else if r.kind = 3 || r.kind = 4 then begin
+          (* first() / last(): the first symbol of the rule present in this derivation / the last one present
+             before the action; nil / -1 when there is none yet *)
+          if lead && (r.kind = 3 || !present = []) then bad := "bad:generator-first-or-last-of-a-list-lead";
+          match SL.rev !present with
+          | [] -> if r.prop = 0 then "nil" else "-1"
+          | l ->
+            let (_, e) = if r.kind = 3 then SL.hd l else SL.nth l (SL.length l - 1) in
+            (match r.prop with 0 -> e.v | 1 -> string_of_int e.off | _ -> string_of_int e.fin)
+        end
         else begin
           let here = SL.filter (fun (occ, _) -> SL.mem occ r.denotes) (SL.rev !present) in
           match here, r.prop with
@@ -190,3 +203,86 @@ let () = Reg.register "c16.gen" (fun inp _ ->
       else "bad:legal-action-grammar-rejected"
     | _ -> "bad:legal-action-grammar-rejected") in
   (A "compiles", verdict))
+
+(* ---------- c16.table: the Names table / MaxPos of every action ----------
+   MODEL: the extracted convert_rule on every rule body; the table it records for each command the harness
+   expects to end a run of code blocks, printed like the harness prints CmdArgs.
+   ORACLE (no convert, no push_name): positions are the leaf numbers in textual order; the pushes before a
+   command are listed in textual order (an alias after its content, with the positions of the leaves beneath
+   it); every entry  name / name#k  of the compiler's table must be the k-th push of that name (name = the
+   first), MaxPos the number of leaves before the command + 1, and the table of a command outside any
+   parenthesised alternative must consist of exactly { name -> only push } + { name#k -> k-th push }. *)
+let table_case inp out =
+  let (gram, ids) = (match lst inp with [g; i] -> (g, get_list get_int i) | _ -> failwith "case") in
+  let rules_x = (match lst gram with [r; _; _] -> r | _ -> failwith "gram") in
+  let key_cmp (n1, s1, _) (n2, s2, _) = compare (n1, s1) (n2, s2) in
+  let put_tab (c, maxpos, ents) =
+    L [put_int c; put_int maxpos;
+       L (SL.map (fun (nm, sfx, ps) -> L [put_int nm; put_int sfx; L (SL.map put_int ps)]) (SL.sort key_cmp ents))] in
+  (* model *)
+  let mtabs = ref [] in
+  SL.iter (fun r -> match lst r with
+    | [_; p] ->
+      let (_, cs) = AR.convert_rule (mpart_of p) in
+      SL.iter (fun (c, ca) ->
+        let seen = Hashtbl.create 8 in
+        let ents = SL.filter_map (fun ((nm, sfx), ps) ->
+          let k = (int_of_n nm, (match sfx with None -> -1 | Some i -> int_of_n i)) in
+          if Hashtbl.mem seen k then None
+          else (Hashtbl.add seen k (); Some (Stdlib.fst k, Stdlib.snd k, SL.map int_of_nat ps))) ca.AR.ca_names in
+        mtabs := (int_of_n c, int_of_nat ca.AR.ca_maxpos, ents) :: !mtabs) cs.AR.c_cmds
+    | _ -> failwith "rule") (lst rules_x);
+  let wanted = SL.filter (fun (c, _, _) -> SL.mem c ids) !mtabs in
+  let wanted = SL.sort (fun (a, _, _) (b, _, _) -> compare a b) wanted in
+  let model = L (A "tables" :: SL.map put_tab wanted) in
+  (* oracle *)
+  let info = Hashtbl.create 16 in
+  SL.iter (fun r -> match lst r with
+    | [_; p] ->
+      let pos = ref 1 and pushes = ref [] in
+      let rec walk x depth = (match lst x with
+        | [A "e"] -> []
+        | [A "s"; _; nm; _] -> let q = !pos in incr pos; pushes := (get_int nm, [q]) :: !pushes; [q]
+        | [A "l"; _; _] -> let q = !pos in incr pos; [q]
+        | [A "o"; p] -> walk p depth
+        | [A "q"; a; b] | [A "c"; a; b] -> let xs = walk a depth in let ys = walk b depth in xs @ ys
+        | [A "n"; p] -> walk p (depth + 1)
+        | [A "a"; nm; p] -> let ps = walk p depth in if ps <> [] then pushes := (get_int nm, ps) :: !pushes; ps
+        | [A "k"; c] -> Hashtbl.replace info (get_int c) (SL.rev !pushes, depth > 0, !pos); []
+        | _ -> failwith "part") in
+      ignore (walk p 0)
+    | _ -> failwith "rule") (lst rules_x);
+  let verdict = ref "ok" in
+  let fail v = if !verdict = "ok" then verdict := v in
+  (match out with
+   | L (A "tables" :: tabs) ->
+     let got = SL.map (fun t -> match lst t with
+       | [c; mp; ents] ->
+         (get_int c, get_int mp, SL.map (fun e -> match lst e with
+           | [nm; sfx; ps] -> (get_int nm, get_int sfx, get_list get_int ps)
+           | _ -> failwith "entry") (lst ents))
+       | _ -> failwith "table") tabs in
+     SL.iter (fun c -> if SL.length (SL.filter (fun (c', _, _) -> c' = c) got) <> 1 then
+                 fail "bad:command-without-a-single-names-table") ids;
+     SL.iter (fun (c, mp, ents) ->
+       match Hashtbl.find_opt info c with
+       | None -> fail "bad:names-table-of-unknown-command"
+       | Some (pushes, nested, maxpos) ->
+         if mp <> maxpos then fail "bad:names-table-maxpos";
+         let occs nm = SL.map Stdlib.snd (SL.filter (fun (n, _) -> n = nm) pushes) in
+         SL.iter (fun (nm, sfx, ps) ->
+           let o = occs nm in
+           let k = if sfx < 0 then 0 else sfx in
+           if k >= SL.length o || SL.nth o k <> ps then fail "bad:names-table-entry-denotes-wrong-occurrence") ents;
+         if not nested then begin
+           let names = SL.sort_uniq compare (SL.map Stdlib.fst pushes) in
+           let expect = SL.concat_map (fun nm ->
+             match occs nm with
+             | [ps] -> [(nm, -1, ps)]
+             | o -> SL.mapi (fun i ps -> (nm, i, ps)) o) names in
+           if SL.sort key_cmp expect <> SL.sort key_cmp ents then fail "bad:names-table-not-exact-at-top-level"
+         end) got
+   | _ -> fail "bad:no-names-tables");
+  (model, !verdict)
+
+let () = Reg.register "c16.table" table_case
